@@ -136,11 +136,31 @@ def history_run(h):
         else:
             md_obj = make_metadata(md_json)
         if share == "props":
-            # the same dict objects (and arrays) for every write; step k uses the shared dicts as they are now
+            # the same dict objects and VALUES arrays for every write; from one write to the next the caller changes
+            # the masks (removes, inverts, shifts them).  The graph to come back: the original values, the current masks.
             if shared_props is None:
                 shared_props = (copy.deepcopy(g["node_props"]), copy.deepcopy(g["edge_props"]))
+                pristine = R.build_geff(steps[0]["g"])
+                cur = {"node_props": {nm: p["missing"] for nm, p in pristine["node_props"].items()},
+                       "edge_props": {nm: p["missing"] for nm, p in pristine["edge_props"].items()}}
+            for key, dct in (("node_props", shared_props[0]), ("edge_props", shared_props[1])):
+                for nm, mj in (st.get("masks") or {}).get(key, {}).items():
+                    cur[key][nm] = None if mj is None else R.dec_arr(mj)
+                    dct[nm]["missing"] = None if mj is None else R.dec_arr(mj)
             node_props, edge_props = shared_props
-            want = {**g, "node_props": R.build_geff(steps[0]["g"])["node_props"], "edge_props": R.build_geff(steps[0]["g"])["edge_props"]}
+            want = {**g, **{key: {nm: {"values": pristine[key][nm]["values"], "missing": cur[key][nm]} for nm in pristine[key]}
+                            for key in ("node_props", "edge_props")}}
+        elif share == "alias":
+            # several properties (node and edge side) backed by ONE ndarray / overlapping views of it, each with its own mask
+            base = R.dec_arr(st["alias"]["base"])
+            keep = base.copy()
+            node_props, edge_props = copy.deepcopy(g["node_props"]), copy.deepcopy(g["edge_props"])
+            want = {**g, "node_props": dict(copy.deepcopy(g["node_props"])), "edge_props": dict(copy.deepcopy(g["edge_props"]))}
+            for side, nm, start, mj in st["alias"]["uses"]:
+                kk = len(g["node_ids"]) if side == "node_props" else len(g["edge_ids"])
+                m = None if mj is None else R.dec_arr(mj)
+                (node_props if side == "node_props" else edge_props)[nm] = {"values": base[start:start + kk], "missing": m}
+                want[side][nm] = {"values": keep[start:start + kk], "missing": None if m is None else m.copy()}
         else:
             node_props, edge_props = copy.deepcopy(g["node_props"]), copy.deepcopy(g["edge_props"])
             want = g
@@ -205,12 +225,68 @@ def history_cases(rng, n):
                  "edge_props": [[nm, R.rand_prop(rng, ne)] for nm in e_names]}
             R.set_layouts(rng, g, p=0.2)
             names_prev_n, names_prev_e = n_names, e_names
-            steps.append({"g": g, "fmt": rng.choice([2, 3]), "validate": rng.random() < 0.7,
-                          "store": "mem" if rng.random() < 0.9 else rng.choice(["local", "path", "str"])})
+            step = {"g": g, "fmt": rng.choice([2, 3]), "validate": rng.random() < 0.7,
+                    "store": "mem" if rng.random() < 0.9 else rng.choice(["local", "path", "str"])}
+            if share == "props":
+                if j == 0:
+                    # fixed-shape properties with masks that flag something, on a non-empty graph
+                    if nn == 0:
+                        nid, eid = small("some")
+                        nn, ne = nid["shape"][0], eid["shape"][0]
+                        g.update(node_ids=nid, edge_ids=eid, node_props=[[nm, R.rand_prop(rng, nn)] for nm in n_names],
+                                 edge_props=[[nm, R.rand_prop(rng, ne)] for nm in e_names])
+                    g["node_props"].append(["masked", R.rand_prop(rng, nn, allow_vlen=False, dtypes=["int16", "float32", "str", "bool", "uint64"])])
+                    for key, kk in (("node_props", nn), ("edge_props", ne)):
+                        for _, pr in g[key]:
+                            if "obj" not in pr["values"] and kk and (pr["missing"] is None or not any(pr["missing"]["flat"])):
+                                flat = [rng.random() < 0.5 for _ in range(kk)]
+                                flat[rng.randrange(kk)] = True
+                                pr["missing"] = {"dtype": "bool", "shape": [kk], "flat": flat}
+                            pr["values"].pop("layout", None) if "obj" not in pr["values"] else None
+                else:
+                    g0 = steps[0]["g"]
+                    masks = {"node_props": {}, "edge_props": {}}
+                    for key in masks:
+                        for nm, pr in g0[key]:
+                            if pr["missing"] is None:
+                                continue
+                            old_ = pr["missing"]["flat"]
+                            op = rng.choice(["remove", "invert", "shift", "keep"])
+                            if op == "remove":
+                                masks[key][nm] = None
+                            elif op == "invert":
+                                masks[key][nm] = {"dtype": "bool", "shape": [len(old_)], "flat": [not b for b in old_]}
+                            elif op == "shift":
+                                masks[key][nm] = {"dtype": "bool", "shape": [len(old_)], "flat": old_[-1:] + old_[:-1]}
+                    step["masks"] = masks
+            steps.append(step)
         h = {"share": share, "steps": steps, "origin": "history-" + share}
         if share == "metadata" and rng.random() < 0.5:
             h["md"] = {"directed": rng.random() < 0.5}
         out.append(h)
+    # single writes in which several properties alias ONE ndarray (the same object / overlapping views), masks differing
+    for i in range(max(4, n // 4)):
+        nid, eid = small("some")
+        nn, ne = nid["shape"][0], eid["shape"][0]
+        dt = rng.choice(["int32", "float64", "str", "bool", "uint8", "float32"])
+        tail = rng.choice([[], [], [2]])
+        L = max(nn, ne) + 3
+        base = R.rand_array(rng, dt, [L, *tail])
+
+        def mask(kk, want_true):
+            flat = [rng.random() < 0.5 for _ in range(kk)]
+            if kk and want_true:
+                flat[rng.randrange(kk)] = True
+            return {"dtype": "bool", "shape": [kk], "flat": flat}
+        uses = [["node_props", "al0", 0, mask(nn, True)], ["node_props", "al1", 0, rng.choice([None, mask(nn, False)])],
+                ["node_props", "al2", rng.randint(0, 3), mask(nn, True)]]
+        if ne:
+            uses.append(["edge_props", "al0", rng.randint(0, 3), rng.choice([None, mask(ne, True)])])
+            uses.append(["edge_props", "al3", 0, mask(ne, True)])
+        rng.shuffle(uses)
+        out.append({"share": "alias", "origin": "history-alias", "steps": [
+            {"g": {"node_ids": nid, "edge_ids": eid, "node_props": [], "edge_props": []}, "fmt": rng.choice([2, 3]), "validate": True,
+             "alias": {"base": base, "uses": uses}}]})
     # the minimal scenario: A = {p, q}, then B = {p} through ONE metadata object
     nid, eid = tiny_ids("uint8", 2, 1)
     p_ = ["p", {"values": det_array("int16", [2], 1), "missing": None}]
@@ -611,7 +687,9 @@ def run(ck: common.Check):
                "stride, big-endian, read-only); unsquish arguments (valid and invalid); every case on MemoryStore x zarr_format "
                "2 and 3, a sample on LocalStore/Path/str; histories of 2-3 writes of different well-formed graphs into fresh "
                "targets sharing one GeffMetadata instance / the metadata read from the previous geff / the same property "
-               "dicts, each followed by a validated read (also after structure_validation=False); "
+               "dicts and values arrays with the masks removed, inverted or shifted between the writes, each followed by a "
+               "validated read (also after structure_validation=False); single writes in which several node/edge properties "
+               "alias one ndarray or overlapping views of it with different masks; "
                "non-trivial = at least one node or one property; distinct = distinct canonical case JSON")
     cases = [c for c in R.corpus(PROP) if "steps" not in c]
     base = rotate_layouts(exhaustive(ck.quick)) + special_cases()
@@ -647,8 +725,8 @@ def run(ck: common.Check):
         if good:
             continue
         key = {"metadata": "C01:history-shared-metadata", "read-metadata": "C01:history-metadata-from-read",
-               "props": "C01:history-shared-props"}[h["share"]]
-        if last["step"] == 0:
+               "props": "C01:history-shared-props", "alias": "C01:history-shared-props"}[h["share"]]
+        if last["step"] == 0 and h["share"] != "alias":
             key = "C01:write-raises" if last["write"] != "ok" else ("C01:read-raises" if last["read"] != "ok" else last["spec"][0][0])
         what = (f"history of {len(h['steps'])} writes sharing caller objects ({h['share']}): step {last['step']} "
                 + (f"write_arrays raised {last['write']}: {last.get('msg')}" if last["write"] != "ok" else
